@@ -23,6 +23,11 @@ type tcpSession struct {
 // tcpConnTimeout: the ConnectionTimeout of the sessions created next
 var tcpConnTimeout = 2 * time.Second
 
+// tcpHost, tcpHeartbeat: address form and HeartbeatInterval of the sessions created next
+var tcpHost = ""
+var tcpMu sync.Mutex
+var tcpHeartbeat = time.Second + 1
+
 func newTCPSession(user, password, key string) (ts *tcpSession, err error) {
 	connTimeout := tcpConnTimeout
 	defer func() {
@@ -35,9 +40,12 @@ func newTCPSession(user, password, key string) (ts *tcpSession, err error) {
 		return nil, err
 	}
 	host, port, _ := net.SplitHostPort(ln.Addr().String())
+	if tcpHost != "" {
+		host = tcpHost
+	}
 	pn, _ := strconv.Atoi(port)
 	cl, err := rscp.NewClient(rscp.ClientConfig{Address: host, Port: uint16(pn), Username: user, Password: password, Key: key,
-		ConnectionTimeout: connTimeout, SendTimeout: 2 * time.Second, ReceiveTimeout: 2 * time.Second, HeartbeatInterval: time.Second + 1})
+		ConnectionTimeout: connTimeout, SendTimeout: 2 * time.Second, ReceiveTimeout: 2 * time.Second, HeartbeatInterval: tcpHeartbeat})
 	if err != nil {
 		ln.Close()
 		return nil, err
@@ -171,6 +179,8 @@ func init() {
 				before map[int]time.Duration // pause before call k
 				fails  map[int]bool          // calls that cannot succeed (never answered / dead connection)
 				quick  map[int]bool          // calls that are answered at once and have to return at once
+				hb     time.Duration         // HeartbeatInterval of the client (0 = the usual one)
+				host   string                // how the client names the device ("" = its IP address)
 				op     string
 				impl   string
 				prop   string
@@ -268,6 +278,9 @@ func init() {
 						for _, r := range c.reqs {
 							rep = append(rep, rscp.Message{Tag: r.Tag | 1<<23, DataType: rscp.Error, Value: rscp.RscpError(code)})
 						}
+						// … and more top-level items than were asked for
+						rep = append(rep, rscp.Message{Tag: rscp.RSCP_GENERAL_ERROR, DataType: rscp.Error, Value: rscp.RscpError(code)}, rscp.Message{Tag: rscp.EMS_POWER_PV, DataType: rscp.Int32, Value: int32(1)},
+							rscp.Message{Tag: rscp.BAT_DATA, DataType: rscp.Error, Value: rscp.RscpError(7)})
 						c.user = frameReply(rep)
 					}
 					sc.calls = append(sc.calls, c)
@@ -309,6 +322,22 @@ func init() {
 					scs = append(scs, sc)
 				}
 			}
+			// (10) unusual but legal options: a heartbeat interval of ten hours; the device addressed by name — connect,
+			// disconnect, connect again
+			for _, v := range []struct {
+				hb   time.Duration
+				host string
+			}{{10 * time.Hour, ""}, {100000 * time.Hour, ""}, {0, "localhost"}} {
+				sc := &scenario{name: fmt.Sprintf("options hb=%v host=%q", v.hb, v.host), fails: map[int]bool{}, hb: v.hb, host: v.host}
+				for k := 0; k < 5; k++ {
+					if k%2 == 1 {
+						sc.calls = append(sc.calls, &callSpec{kind: "D", reqs: g.nonceRequest(k)[:1]})
+						continue
+					}
+					sc.calls = append(sc.calls, healthy(k))
+				}
+				scs = append(scs, sc)
+			}
 			// (5) a reply damaged in transit once (one bit of the frame's time stamp, checksum untouched): the call fails
 			// with a checksum error, its request reached the device once, the next call works on a new connection
 			for j := 0; j < 2; j++ {
@@ -328,7 +357,14 @@ func init() {
 				go func(j int, sc *scenario) {
 					defer wg.Done()
 					user, pw := fmt.Sprintf("scuser%d", j), "scpw"
+					tcpMu.Lock()
+					if sc.hb != 0 {
+						tcpHeartbeat = sc.hb
+					}
+					tcpHost = sc.host
 					ts, err := newTCPSession(user, pw, "sckey")
+					tcpHeartbeat, tcpHost = time.Second+1, ""
+					tcpMu.Unlock()
 					if err != nil {
 						return
 					}
@@ -372,10 +408,13 @@ func init() {
 						if sc.name == "refused-then-valid" && k == 1 && strings.Contains(r, "sent ") {
 							addVerdict(&prop, "FAIL C05 a refused request reached the wire: "+trunc(r, 120))
 						}
-						if !sc.fails[k] {
+						if !sc.fails[k] && c.kind != "D" {
 							want := "ok " + strings.TrimPrefix(c.user.model, "F ") // the reply scripted for this very call
 							if !strings.HasPrefix(r, want+" @") {
 								addVerdict(&prop, fmt.Sprintf("FAIL C08 no recovery: call %d of scenario %s against a healthy peer gives %s", k, sc.name, trunc(r, 120)))
+								if strings.HasPrefix(sc.name, "options") {
+									addVerdict(&prop, fmt.Sprintf("FAIL C06 with a legal option value (%s) a healthy exchange fails: %s", sc.name, trunc(r, 100)))
+								}
 								if strings.HasPrefix(sc.name, "large-reply") {
 									addVerdict(&prop, fmt.Sprintf("FAIL C07 a reply delivered completely over TCP (%s) is not returned: %s", sc.name, trunc(r, 100)))
 								}
